@@ -16,7 +16,7 @@ STAT_KEYS = None
 
 
 def expected_stats(world):
-    finals = [st[-1][3] for st in world.streams if st]
+    finals = [st[-1][4] for st in world.streams if st]  # the workers' true final statistics, not what their marker carries
     from nucs.constants import STATS_IDX_SOLVER_CHOICE_DEPTH
     from nucs.solvers.backtrack_solver import BacktrackSolver
 
@@ -121,7 +121,7 @@ def conformance_case(acc, spec, pname, subs, mode, var, cfg=("bc", "first", "min
     # per worker, the real messages are the model's stream (proc_idx, solution; final statistics on the marker)
     for w, stream in enumerate(model.world.streams):
         got = [m for m in real.log if m[0] == w]
-        exp = [(int(p), None if sol is None else tuple(int(v) for v in sol)) for p, sol, _st, _fin in stream]
+        exp = [(int(p), None if sol is None else tuple(int(v) for v in sol)) for p, sol, _st, _fin, _true in stream]
         if [(m[0], m[1]) for m in got] != exp:
             acc.violation("real-process:stream-differs-from-model", dict(base, worker=w, real=[(m[0], m[1]) for m in got], model=exp),
                           "the messages a real worker sent are not the stream SchedMC computed for it")
